@@ -158,7 +158,7 @@ def load_module(modname: str, srcdir: str | Path, to_cover=None):
 STDLIB = ["bisect", "heapq", "textwrap", "shlex", "fnmatch", "colorsys", "keyword", "string",
           "statistics", "copy", "reprlib", "glob", "graphlib", "fractions", "numbers", "stat",
           "queue", "sched", "calendar", "cmd", "difflib", "getopt", "base64", "quopri", "netrc",
-          "pprint", "tabnanny", "token", "this_is_not_there"]
+          "pprint", "tabnanny", "token"]
 
 
 def stdlib_copy(name: str, dest: Path) -> str | None:
@@ -392,6 +392,26 @@ def h_while_try(xs):
         finally:
             xs = xs[:-1]
     return xs
+'''
+
+
+# A module whose function keeps a dead cycle in its bytecode (CPython does not remove the handler of
+# a try body that cannot raise, nor the loop that is only reachable through it).
+HAND_DEAD = '''
+def d_ok(x):
+    if x:
+        return 1
+    return 2
+
+
+def d_dead_cycle(x, y):
+    while True:
+        try:
+            pass
+        except KeyError:
+            break
+    while True:
+        y = 2
 '''
 
 
